@@ -68,6 +68,19 @@ func ConstructMessageFromUnits(
 		return nil, nil, merkle.Proof{}, errors.New("no propeller units to decode")
 	}
 
+	// Units are indexed by shard, any of them can be missing (unit 0 included): the fields shared
+	// by every unit of a message are read from the first one that is present.
+	var firstUnit *Unit
+	for _, unit := range units {
+		if unit != nil {
+			firstUnit = unit
+			break
+		}
+	}
+	if firstUnit == nil {
+		return nil, nil, merkle.Proof{}, errors.New("no propeller units to decode")
+	}
+
 	shards := make([][]byte, len(units))
 	for i := range shards {
 		if units[i] != nil {
@@ -96,7 +109,7 @@ func ConstructMessageFromUnits(
 
 	merkleRoot, merkleTree := merkle.New(shards)
 
-	messageRoot := units[0].MessageRoot
+	messageRoot := firstUnit.MessageRoot
 	expectedRoot := MessageRoot(merkleRoot)
 	if messageRoot != expectedRoot {
 		// todo(rdr): probably need to write string methods for the MessageRoot type
